@@ -6,7 +6,7 @@ use std::collections::BTreeMap;
 use crate::{
     core::{Rng, SchedKnobs},
     plan::{
-        Behaviour, Def, FeatureSpec, Kw, Outcome, ParserItem, ParserItemKind, Plan, RuleSpec,
+        Behaviour, BuilderLimit, Def, FeatureSpec, Kw, Outcome, ParserItem, ParserItemKind, Plan, RuleSpec,
         RunnerCfg, ScenarioSpec, StepSpec, WriterCfg, expanded_names, SITE_WORLD, site_after,
         site_before, site_step,
     },
@@ -329,12 +329,12 @@ pub fn gen_plan(seed: u64, prof: &Profile) -> Plan {
     match r.below(6) {
         0 => {} // default 64
         1 => cfg.cli_concurrency = Some(pick_limit(&mut r)),
-        2 => cfg.builder_concurrency = Some(Some(pick_limit(&mut r))),
+        2 => cfg.builder_concurrency = BuilderLimit::Limit(pick_limit(&mut r)),
         3 => {
             cfg.cli_concurrency = Some(pick_limit(&mut r));
-            cfg.builder_concurrency = Some(Some(pick_limit(&mut r)));
+            cfg.builder_concurrency = BuilderLimit::Limit(pick_limit(&mut r));
         }
-        4 => cfg.builder_concurrency = Some(None),
+        4 => cfg.builder_concurrency = BuilderLimit::Unlimited,
         _ => cfg.cli_concurrency = Some(pick_limit(&mut r)),
     }
     if wide {
